@@ -211,6 +211,7 @@ pub fn run_c01(args: &Args, seed: u64, tier: &str, report: &Report) -> String {
         focus: false,
         // dealt by (root, first move), see stream.rs, so that depth 4 (~150 M positions) shards evenly
         dfs_depth: if thorough { 4 } else { 3 },
+        three_men: thorough,
     };
     run_shards(shards, 64, |shard| {
         let mut l = Local::default();
